@@ -766,6 +766,7 @@ const nTamperKinds = 26
 func runC01(c *engine.Ctx) {
 	p := c.Plan
 	w := &signWorld{c: c, features: map[string]bool{}, yamlSafe: true}
+	w.oddEnvNames = c.Plan.Draw(3, "cfg:odd-env-names") == 2
 	kp := pickKey(p)
 	w.rich = p.Draw(3, "cfg:rich") == 2
 	repoURL := []string{"git@github.com:org/repo.git", "https://github.com/org/repo", "r"}[p.Draw(3, "cfg:repo")]
